@@ -29,7 +29,9 @@ func (t *WeightedMerkleTrie) GetPath(keys [][]byte) ([]byte, error) {
 		}
 	}
 
-	if len(keys) > 10 {
+	// the parallel collection fans out over the children of a branch root; any other root
+	// (a shared-prefix node, a single entry) is walked key by key like a small request
+	if _, branchRoot := t.root.(*routingNode); branchRoot && len(keys) > 10 {
 		eg, _ := errgroup.WithContext(context.TODO())
 		eg.SetLimit(5)
 		if node, ok := t.root.(*routingNode); ok {
